@@ -1471,6 +1471,7 @@ func (analyser *BurndownAnalysis) handleRename(from, to string) error {
 			known[from] = true
 			for exists {
 				futureRename = newRename
+				known[futureRename] = true
 				newRename, exists = analyser.renames[futureRename]
 				if known[newRename] {
 					// infinite cycle
@@ -1483,7 +1484,6 @@ func (analyser *BurndownAnalysis) handleRename(from, to string) error {
 					}
 					break
 				}
-				known[futureRename] = true
 			}
 			// a future branch could have already renamed it and we are retarded
 			if futureRename == "" {
